@@ -76,3 +76,4 @@ fn main() {
 }
 pub mod gen;
 pub mod refm;
+pub mod sim;
